@@ -41,7 +41,77 @@ fn(W + ".handle_http", params={"scope": SCOPE, "receive": RECV, "send": SEND, "s
 START_IS = lambda m: ("%s['type'] == 'http.response.start' and %s['status'] == wsgi_body().code "
                       "and %s['headers'] == [(name.lower().encode('latin-1'), value.encode('latin-1')) for name, value in wsgi_body().headers]" % (m, m, m))
 
+# Executable statement of what C17 says about run_app, used only when run_app leaves the verifier's
+# subset (bounded native search, labelled): scripted PEP 3333 applications -- eager or lazy
+# start_response, 0..3 chunks, a failure before / at any chunk -- run through the real run_app.
+class _ScriptedBody:
+    def __init__(self, script, start_response, lazy):
+        self.script, self.start_response, self.lazy = list(script), start_response, lazy
+        self.closed = 0
+        self.i = 0
+
+    def __iter__(self):
+        return self
+
+    def __next__(self):
+        if self.lazy:
+            self.start_response("200 OK", [("X-A", "b")])
+            self.lazy = False
+        if self.i >= len(self.script):
+            raise StopIteration
+        x = self.script[self.i]
+        self.i += 1
+        if x is None:
+            raise RuntimeError("application failed while producing a chunk")
+        return x
+
+    def close(self):
+        self.closed += 1
+
+
+def _run_app_args(rng):
+    from hypercorn.app_wrappers import WSGIWrapper
+
+    script = [rng.choice([b"a", b"bc", b"", None]) for _ in range(rng.choice([0, 1, 1, 2, 3]))]
+    lazy = rng.random() < 0.5
+    never = rng.random() < 0.1
+    box = {}
+
+    def app(environ, start_response):
+        if not lazy and not never:
+            start_response("200 OK", [("X-A", "b")])
+        box["body"] = _ScriptedBody(script, start_response, lazy and not never)
+        return box["body"]
+
+    sent = []
+    w = WSGIWrapper(app, 1024)
+    return {"self": w, "environ": {"REQUEST_METHOD": "GET"}, "send": sent.append, "_box": box, "_sent": sent, "_script": script, "_never": never}
+
+
+def _run_app_oracle(args, result, exc=None):
+    """close() of the iterable is called exactly once, also when the application fails; the chunks
+    produced before a failure are forwarded unchanged, in order, after exactly one response start"""
+    body = args["_box"].get("body")
+    if body is None or body.closed != 1:
+        return False
+    sent = args["_sent"]
+    good = []
+    for x in args["_script"]:
+        if x is None:
+            break
+        good.append(x)
+    if args["_never"]:
+        return exc is not None and len(sent) == 0
+    starts = [m for m in sent if m["type"] == "http.response.start"]
+    bodies = [m["body"] for m in sent if m["type"] == "http.response.body"]
+    failed = None in args["_script"]
+    if not failed and (exc is not None or len(starts) != 1):
+        return False
+    return bodies == good[:len(bodies)] and (failed or bodies == good) and len(starts) <= 1 and (not bodies or sent[0]["type"] == "http.response.start")
+
+
 fn(W + ".run_app", params={"environ": "opaque", "send": "callable{record:sent_sync;yields:0}"}, effect="atomic",
+   model_opts={"native_args": _run_app_args, "native_oracle": _run_app_oracle, "native_oracle_name": "C17.close+chunks (native oracle)"},
    raises={"RuntimeError": {"ensures": [
        # C17.lazy: start_response may be called lazily, when the first chunk is produced (PEP 3333);
        # giving up is right only for an application that never calls it
